@@ -26,13 +26,18 @@ import (
 	"sync"
 	"time"
 
+	"os"
+
+	"github.com/logrange/logrange/api"
 	"github.com/logrange/logrange/pkg/container"
 	"github.com/logrange/logrange/pkg/cursor"
 	"github.com/logrange/logrange/pkg/lql"
 	"github.com/logrange/logrange/pkg/model"
 	"github.com/logrange/logrange/pkg/model/tag"
+	"github.com/logrange/logrange/pkg/tindex"
 	"github.com/logrange/range/pkg/records"
 	"github.com/logrange/range/pkg/records/journal"
+	"verifharness/internal/lrsrv"
 	"verifharness/internal/vh"
 
 	"github.com/jrivets/log4g"
@@ -1338,10 +1343,185 @@ func runDoc(rp replayDoc, verbose bool) bool {
 			res.Fatal(args.Out, "driver: %v", err)
 		}
 		judgeRing(c, l, im, bad, outs, verbose)
+	case "system":
+		var c sysCase
+		if err := json.Unmarshal(rp.Input, &c); err != nil || len(c.Progs) == 0 {
+			return false
+		}
+		runSystem(c, verbose)
 	default:
 		return false
 	}
 	return true
+}
+
+// ---------------------------------------------------------------------------------------------
+// system: the real provider on the in-process server, real partitions (partition.Service.GetJournals below newCursor)
+
+type sysCase struct {
+	Progs []string `json:"progs"` // cached | cached-two | uncached | badpos | badpos-cached | badquery | toomany | rpc-paged
+}
+
+var sysProgs = []string{"cached", "uncached", "badpos", "badpos-cached", "badquery", "toomany", "rpc-paged", "cached-two"}
+
+// runSystem: after every program each partition's reader count (tag index) must be 0 again — every cursor of the program
+// was released un-cached or has expired —, a cached idle cursor holds its partitions, nothing panics, every program returns.
+func runSystem(c sysCase, verbose bool) {
+	sec := res.Section("system", "spec-search", "the real cursor.Provider of the in-process server over real partitions (partition.Service.GetJournals and the tag index below newCursor): cached / un-cached cursor life cycles (release, next page, idle expiry through the export), a position that cannot be applied (un-cached, cached), an unparsable query, more than 50 partitions (GetJournals' limit path), paged reading over RPC; after every program every partition's reader count is 0 again, a cached idle cursor still holds its partitions, nothing panics, every program returns within 30 s; non-trivial = at least 2 programs, distinct by program list")
+	dir := lrsrv.NewDir()
+	defer os.RemoveAll(dir)
+	srv, err := lrsrv.Start(dir, lrsrv.Opts{})
+	if err != nil {
+		res.Note("system: %v", err)
+		return
+	}
+	defer func() { vh.WithTimeout(3*time.Second, srv.Stop) }()
+	pv, _ := cursor.ProviderVerifOf(srv.Cursors)
+	for i := 0; i < 3; i++ {
+		var wr api.WriteResult
+		srv.Client.Write(ctx, fmt.Sprintf("c15=p%d", i), "", []*api.LogEvent{{Timestamp: 1, Message: "a"}, {Timestamp: 2, Message: "b"}, {Timestamp: 3, Message: "c"}}, &wr)
+	}
+	srv.FlushWait()
+	q := "select from c15 like \"p*\" limit 10"
+	manyMade := false
+	fail := func(kind, what, impl, spec string, upto int) {
+		res.SpecFail(vh.SpecFailure{Section: "system", Kind: kind, Input: sysCase{Progs: c.Progs[:upto+1]}, Impl: impl, Spec: spec, What: what})
+	}
+	counts := func() (string, bool) {
+		bad := false
+		out := []string{}
+		for _, src := range tindex.VerifSources(srv.TIndex) {
+			r, x, _ := tindex.VerifState(srv.TIndex, src)
+			if r != 0 || x {
+				bad = true
+			}
+			out = append(out, fmt.Sprintf("%d", r))
+		}
+		return strings.Join(out, " "), bad
+	}
+	expire := func() {
+		pv.Age(400 * time.Second)
+		pv.SweepByTime()
+		pv.Age(400 * time.Second)
+		pv.SweepByTime()
+	}
+	for pi, pr := range c.Progs {
+		res.Dist(sec, pr)
+		pnc := ""
+		done := vh.WithTimeout(30*time.Second, func() {
+			pnc = vh.Recover(func() {
+				switch pr {
+				case "cached", "cached-two":
+					cu, err := srv.Cursors.GetOrCreate(ctx, cursor.State{Query: q}, true)
+					if err != nil || cursor.IsEmptyCurVerif(cu) {
+						return
+					}
+					for _, src := range tindex.VerifSources(srv.TIndex) {
+						if r, _, _ := tindex.VerifState(srv.TIndex, src); r > 1 {
+							fail("leak", "a partition is acquired more than once by one cursor", fmt.Sprint(r), "1", pi)
+						}
+					}
+					st := srv.Cursors.Release(ctx, cu)
+					if pr == "cached-two" {
+						// the next page of the kept cursor
+						if cu2, err := srv.Cursors.GetOrCreate(ctx, cursor.State{Id: st.Id, Query: q, Pos: st.Pos}, true); err == nil {
+							srv.Cursors.Release(ctx, cu2)
+						}
+					}
+					if _, bad := counts(); !bad {
+						fail("closed-while-live", "a cached idle cursor no longer holds its partitions", "readers 0", "1", pi)
+					}
+					expire()
+				case "uncached":
+					if cu, err := srv.Cursors.GetOrCreate(ctx, cursor.State{Query: q}, false); err == nil {
+						srv.Cursors.Release(ctx, cu)
+					}
+				case "badpos", "badpos-cached":
+					if cu, err := srv.Cursors.GetOrCreate(ctx, cursor.State{Query: q, Pos: "garbage"}, pr == "badpos-cached"); err == nil {
+						srv.Cursors.Release(ctx, cu)
+						expire()
+					}
+				case "badquery":
+					srv.Cursors.GetOrCreate(ctx, cursor.State{Query: "select from from"}, true)
+				case "toomany":
+					if !manyMade {
+						manyMade = true
+						for i := 0; i < 52; i++ {
+							if src, _, err := srv.TIndex.GetOrCreateJournal(fmt.Sprintf("c15=m%d", i)); err == nil {
+								srv.TIndex.Release(src)
+							}
+						}
+					}
+					if cu, err := srv.Cursors.GetOrCreate(ctx, cursor.State{Query: "select from c15 like \"m*\" limit 1"}, true); err == nil {
+						fail("limit", "a cursor over more than 50 partitions was built", "cursor", "error", pi)
+						srv.Cursors.Release(ctx, cu)
+						expire()
+					}
+				case "rpc-paged":
+					var qr api.QueryResult
+					if err := srv.Client.Query(ctx, &api.QueryRequest{Query: q, Limit: 2}, &qr); err == nil && qr.Err == nil {
+						next := qr.NextQueryRequest
+						var qr2 api.QueryResult
+						srv.Client.Query(ctx, &next, &qr2)
+					}
+					expire()
+				}
+			})
+		})
+		if !done {
+			fail("deadlock", "program "+pr+" did not return within 30 s", "hangs", "returns", pi)
+			return
+		}
+		if pnc != "" {
+			fail("panic", "program "+pr+" panicked (a panic in a request handler ends the server)", pnc, "no panic", pi)
+			return
+		}
+		st, bad := "", false
+		if !vh.WithTimeout(10*time.Second, func() { st, bad = counts() }) {
+			fail("deadlock", "the tag index does not answer after program "+pr, "hangs", "answers", pi)
+			return
+		}
+		if bad {
+			fail("leak", "after program "+pr+" a partition is still acquired although no cursor is alive (or it is exclusively locked)", st, "all readers 0", pi)
+			return
+		}
+	}
+	key := ""
+	if len(c.Progs) >= 2 {
+		key = fmt.Sprint(c.Progs)
+	}
+	res.Eval(sec, key)
+	if verbose {
+		fmt.Println("system:", c.Progs, "ok")
+	}
+}
+
+func sectionSystem(rng *vh.Rng) {
+	n := 12
+	if args.Thorough {
+		n = 120
+	}
+	cases := []sysCase{{Progs: []string{"toomany", "cached"}}, {Progs: []string{"badpos", "badpos-cached", "badquery", "uncached"}}}
+	for i := 0; i < n; i++ {
+		c := sysCase{}
+		for j, k := 0, rng.Range(2, 6); j < k; j++ {
+			c.Progs = append(c.Progs, rng.PickS(sysProgs))
+		}
+		cases = append(cases, c)
+	}
+	var wg sync.WaitGroup
+	sem := make(chan struct{}, 6)
+	for _, c := range cases {
+		wg.Add(1)
+		sem <- struct{}{}
+		go func(c sysCase) {
+			defer wg.Done()
+			defer func() { <-sem }()
+			runSystem(c, false)
+		}(c)
+	}
+	wg.Wait()
+	res.Done(res.Section("system", "", ""))
 }
 
 func sectionCorpus() {
@@ -1383,5 +1563,6 @@ func main() {
 	sectionProvider(rng.Fork("provider"))
 	sectionFreePool()
 	sectionRace()
+	sectionSystem(rng.Fork("system"))
 	res.Write(args.Out)
 }
